@@ -4,8 +4,9 @@
 id=$1; shift; cd /verif
 for s in e:out f:out2; do n=${s%%:*}; o=${s##*:}
   if [ -d /tmp/seed3_$id/$o ]; then
-    mkdir -p seeded/${id}_$n; cp /tmp/seed3_$id/$o/{patch.diff,demo.cc,demo.sh,meta.json} seeded/${id}_$n/ 2>/dev/null
-    cp /tmp/seed3_$id/$o/demo_test.cc seeded/${id}_$n/ 2>/dev/null
+    mkdir -p seeded/${id}_$n
+    # everything the demonstration needs (auxiliary headers live in sub-directories), except built binaries / large files
+    (cd /tmp/seed3_$id/$o && find . -type f -size -200k ! -perm -u+x -o -type f -name "*.sh" | cpio -pdm /verif/seeded/${id}_$n/ 2>/dev/null)
     if git -C /repo apply --check /verif/seeded/${id}_$n/patch.diff; then
       echo "seeded/${id}_$n $id $*" > /tmp/seedq/eval/$(date +%s%N)_${id}_$n.job
       echo "seeded/${id}_$n" > /tmp/seedq/confirm/$(date +%s%N)_${id}_$n.job
